@@ -236,7 +236,10 @@ def load(repo=REPO, target_dir=None):
         raise FactsError("fact file does not carry the hash of the analysed sources")
     cache = doc.get("_cache")
     doc, renames = normalise_renames(doc)
-    doc = normalise_locals(doc)
+    import canon
+    doc = canon.canonicalise(doc)
+    import mirinline
+    mirinline.inline_helpers(doc)
     doc["_cache"] = cache
     return doc
 
